@@ -28,15 +28,17 @@ package props
 //	        of that slice fails during this command.
 //	        KIND gm gs (pool get master/replica) u (use db) x (statement) s (savepoint statement)
 //	             b c r (begin commit rollback) a (set autocommit) y (sync session variables)
-//	             p (ping) f (field list) m (fetch more rows)
+//	             p (ping) f (field list) m (fetch more rows) n (read the next result)
 //	        MODE e (error), z (error, and the connection is found closed afterwards),
 //	             t (x only: no answer until the connection is closed),
-//	             more (x only: the result is streamed: more rows pending)
+//	             more (x only: the result is streamed: more rows pending),
+//	             mres (x only: a further result follows - SERVER_MORE_RESULTS_EXISTS, what a stored
+//	             procedure call or a multi-statement answers - no rows pending)
 //
 // Output: one element per command, then the ledger:
 //
 //	((RESP (s AC INTX (tx (S C)…) (ks (S C)…) CLOSED) EVENT…)… (end (c ID ROLE SLICE CLOSED RETURNS USED-AFTER-RETURN RETURNED-IN-FLIGHT SECOND-OF-ITS-SLICE)…))
-//	RESP ok|err|res|none|dead ; EVENT (G ROLE SLICE CONN|e) (KIND CONN ok|e|z|t|more) (Z CONN) (K CONN)
+//	RESP ok|err|res|none|dead ; EVENT (G ROLE SLICE CONN|e) (KIND CONN ok|e|z|t|more|mres) (Z CONN) (K CONN)
 
 import (
 	"bytes"
@@ -162,7 +164,7 @@ func (n *scNet) SetWriteDeadline(t time.Time) error { return nil }
 // ---------------------------------------------------------------- fake backend world
 
 type scEvent struct {
-	kind  string // G U X S B C R A0 A1 Y P F M Z K
+	kind  string // G U X S B C R A0 A1 Y P F M N Z K
 	conn  int    // -1 for a failed get
 	slice int
 	role  string // for G
@@ -210,6 +212,7 @@ type scConn struct {
 	closed   bool
 	returns  int
 	more     bool
+	moreRes  bool // a further result is pending (MoreResultsExist)
 	inflight bool // a statement has been sent and its answer not yet read
 	uar      bool // used (backend call or close) after it was returned to the pool
 	rif      bool // returned to the pool while a statement was in flight
@@ -239,6 +242,9 @@ func (w *scWorld) touch(slice int) (child bool) {
 			isPing = info.ping
 		}
 		h = (h ^ uint64(pcs[i])) * 1099511628211
+		if info.anyOrder {
+			return false
+		}
 		if info.run {
 			main = true
 			break
@@ -284,6 +290,9 @@ type scPC struct {
 	run  bool
 	cat  string
 	ping bool
+	// SessionExecutor.txConnLost only looks at the connections (IsClosed), in
+	// any order: no event, no effect of the order
+	anyOrder bool
 }
 
 var (
@@ -312,6 +321,8 @@ func scPCInfo(pc uintptr) scPC {
 			v.cat = "pingloop"
 		case strings.HasSuffix(f.Function, ".PingWithTimeout"):
 			v.ping = true
+		case strings.HasSuffix(f.Function, "(*SessionExecutor).txConnLost"):
+			v.anyOrder = true
 		}
 		if !more {
 			break
@@ -418,6 +429,10 @@ func (c *scConn) call(kind, fkind string) string {
 		if fkind == "x" {
 			res = "more"
 		}
+	case "mres":
+		if fkind == "x" {
+			res = "mres"
+		}
 	case "z":
 		res = "z"
 	}
@@ -464,7 +479,7 @@ func (c *scConn) Recycle() {
 	if c.inflight {
 		c.rif = true
 	}
-	if c.more { // pooledConnectImpl.Recycle closes a connection with pending rows
+	if c.more || c.moreRes { // pooledConnectImpl.Recycle closes a connection with pending rows or results
 		c.closeLocked()
 	}
 	c.w.mu.Unlock()
@@ -532,6 +547,13 @@ func (c *scConn) Execute(sql string, maxRows int) (*mysql.Result, error) {
 		c.more = true
 		c.w.mu.Unlock()
 		return scResult("select", true), nil
+	case "mres":
+		c.w.mu.Lock()
+		c.moreRes = true
+		c.w.mu.Unlock()
+		r := scResult(sql, true)
+		r.Status |= mysql.ServerMoreResultsExists
+		return r, nil
 	}
 	return scResult(sql, true), nil
 }
@@ -580,7 +602,12 @@ func (c *scConn) MoreRowsExist() bool {
 	defer c.w.mu.Unlock()
 	return c.more
 }
-func (c *scConn) MoreResultsExist() bool { return false }
+func (c *scConn) MoreResultsExist() bool {
+	c.peek()
+	c.w.mu.Lock()
+	defer c.w.mu.Unlock()
+	return c.moreRes
+}
 func (c *scConn) FetchMoreRows(result *mysql.Result, maxRows int) error {
 	if err := errIf(c.call("M", "m")); err != nil {
 		return err
@@ -592,7 +619,13 @@ func (c *scConn) FetchMoreRows(result *mysql.Result, maxRows int) error {
 	return nil
 }
 func (c *scConn) ReadMoreResult(maxRows int) (*mysql.Result, error) {
-	return nil, fmt.Errorf("no more results")
+	if err := errIf(c.call("N", "n")); err != nil {
+		return nil, err
+	}
+	c.w.mu.Lock()
+	c.moreRes = false
+	c.w.mu.Unlock()
+	return scResult("select", true), nil
 }
 
 // ---------------------------------------------------------------- proxy set-up (once per process)
@@ -853,7 +886,7 @@ func (r *scRunner) restoreWorld(n int, st []scConn) {
 	defer r.w.mu.Unlock()
 	r.w.conns = r.w.conns[:n]
 	for i, c := range r.w.conns {
-		c.returns, c.more, c.inflight, c.uar, c.rif = st[i].returns, st[i].more, st[i].inflight, st[i].uar, st[i].rif
+		c.returns, c.more, c.moreRes, c.inflight, c.uar, c.rif = st[i].returns, st[i].more, st[i].moreRes, st[i].inflight, st[i].uar, st[i].rif
 		if c.closed && !st[i].closed {
 			c.closed = false
 			c.unblock = make(chan struct{})
